@@ -36,7 +36,7 @@ package util
 //@   loop 1 invariant unchanged_except(t.data)
 //@   loop 1 invariant forall j :: 0 <= j && j < len(t.data) ==>
 //@          t.data[j] == old(t.data[j]) + ((j < index && (j & (j+1)) <= old(index) && old(index) <= j) ? delta : 0)
-//@   ghost P[k] = P[k] + ((k >= index) ? delta : 0)
+//@   ghost P[k] = P[k] + ((k >= old(index)) ? delta : 0)
 //@   ensures [inv] fenInv(t)
 //@   ensures [point] forall k :: P[k] == old(P[k]) + ((k >= index) ? delta : 0)
 //@   ensures [shape] len(t.data) == old(len(t.data))
